@@ -4,7 +4,7 @@
 From Coq Require Import List NArith Bool.
 From Coq Require Import Strings.Byte.
 From GoBT Require Import lib.Bytes lib.VarInt model.Tx gen.Consts spec.FeeSpec model.Fees model.Fund
-  proofs.FeesProofs proofs.FundProofs.
+  proofs.FeesProofs proofs.FundProofs proofs.AuditC12.
 Import ListNotations.
 Local Open Scope N_scope.
 
@@ -18,7 +18,10 @@ Theorem C12_fund_inputs : forall t q hist,
 Proof. exact fund_inputs. Qed.
 Print Assumptions C12_fund_inputs.
 
-(** ... each with the supplier's txid, index, value and script and the final sequence number *)
+(** ... each with the supplier's txid, index, value and script and the final sequence number.
+    (Holds by construction of the model: the statement reads off the definition of [of_utxo]; its content is the
+    regenerated constant DefaultSequenceNumber = 0xFFFFFFFF; that FromUTXOs builds this input is carried by the
+    correspondence.) *)
 Theorem C12_of_utxo_fields : forall u,
   in_txid (of_utxo u) = u_txid u /\ in_vout (of_utxo u) = u_vout u /\ in_sats (of_utxo u) = u_sats u /\
   in_script (of_utxo u) = u_script u /\ in_unlock (of_utxo u) = [] /\ in_seq (of_utxo u) = 4294967295.
@@ -83,6 +86,58 @@ Theorem C12_fund_exhaustion_first : forall t q rest d, estimate_deficit t q = FO
   fund t q (NoUTXO :: rest) = mkFund (FErr ErrInsufficientFunds) [d] 1 t.
 Proof. exact fund_exhaustion_first. Qed.
 Print Assumptions C12_fund_exhaustion_first.
+
+(** the run, PREDICTED from the history: after k answers that were batches of valid UTXOs, each leaving a
+    positive deficit, the deficit [dk] of the k-th intermediate transaction and the k-th answer decide the
+    result, the number of calls and the final transaction.  (Excludes spurious errors and early stops: success
+    DOES occur at the first covering prefix.) *)
+Theorem C12_fund_forward : forall q hist t d k,
+  estimate_deficit t q = FOk d ->
+  (forall j, (j < k)%nat -> valid_batch_at hist j /\
+     exists dj, estimate_deficit (inter t hist j) q = FOk dj /\ 0 < dj) ->
+  forall dk, estimate_deficit (inter t hist k) q = FOk dk ->
+  let r := fund t q hist in
+  (dk = 0 -> f_res r = FOk tt /\ f_consumed r = k /\ f_tx r = inter t hist k) /\
+  (0 < dk -> (nth_error hist k = Some NoUTXO \/ nth_error hist k = None) ->
+     f_res r = FErr ErrInsufficientFunds /\ f_consumed r = S k /\ f_tx r = inter t hist k) /\
+  (0 < dk -> nth_error hist k = Some OtherErr ->
+     f_res r = FErr ErrSupplier /\ f_consumed r = S k /\ f_tx r = inter t hist k).
+Proof. exact fund_forward. Qed.
+Print Assumptions C12_fund_forward.
+
+(** ... the fourth ending: a batch containing a txid that is not 32 bytes long gives ErrInvalidTxID, keeping the
+    UTXOs of that batch that came before it *)
+Theorem C12_fund_forward_invalid_txid : forall q hist t d k pre u post,
+  estimate_deficit t q = FOk d ->
+  (forall j, (j < k)%nat -> valid_batch_at hist j /\
+     exists dj, estimate_deficit (inter t hist j) q = FOk dj /\ 0 < dj) ->
+  forall dk, estimate_deficit (inter t hist k) q = FOk dk -> 0 < dk ->
+  nth_error hist k = Some (Batch (pre ++ u :: post)) -> Forall valid_utxo pre -> ~ valid_utxo u ->
+  let r := fund t q hist in
+  f_res r = FErr ErrInvalidTxID /\ f_consumed r = S k /\ f_tx r = add_all (inter t hist k) pre.
+Proof. exact fund_forward_invalid_txid. Qed.
+Print Assumptions C12_fund_forward_invalid_txid.
+
+(** ... and the arguments of the calls made while walking that prefix are the successive deficits *)
+Theorem C12_fund_loop_skip : forall q hist t d k, estimate_deficit t q = FOk d ->
+  (forall j, (j < k)%nat -> valid_batch_at hist j /\
+     exists dj, estimate_deficit (inter t hist j) q = FOk dj /\ 0 < dj) ->
+  forall dk, estimate_deficit (inter t hist k) q = FOk dk ->
+  let r := fund_loop q hist t d in
+  let r' := fund_loop q (skipn k hist) (inter t hist k) dk in
+  f_res r = f_res r' /\ f_consumed r = (k + f_consumed r')%nat /\ f_tx r = f_tx r' /\
+  f_calls r = map (fun j => match estimate_deficit (inter t hist j) q with FOk x => x | _ => 0 end) (seq 0 k) ++ f_calls r'.
+Proof. exact fund_loop_skip. Qed.
+Print Assumptions C12_fund_loop_skip.
+
+(** Fund never exits the process or panics on a well-formed transaction, well-formed supplier answers and a
+    quote without zero byte denominators *)
+Theorem C12_fund_no_crash : forall t q hist, quote_pos q -> wf_tx t -> ~ ambiguous t ->
+  forallb wf_responseb hist = true ->
+  N.of_nat (length (tx_ins t) + length (concat (map batch_utxos hist))) < two64 ->
+  f_res (fund t q hist) <> FFatal /\ f_res (fund t q hist) <> FPanic.
+Proof. exact fund_no_crash. Qed.
+Print Assumptions C12_fund_no_crash.
 
 (** outputs (and version, locktime) are left untouched in every case *)
 Theorem C12_fund_outputs_untouched : forall t q hist,
